@@ -14,6 +14,11 @@ One execute(plan) = one *history* (first run) followed by one *restart per crash
              service task created by start() fails in its first step, abort()/shutdown/cancel
              by the application 0-2 loop iterations after create_task) with states of an
              earlier run in the storage.
+ bystander   30 % of the stop / handler_fail histories contain a block whose stop_async takes
+             0.1-2 s of virtual time; in 40 % of those the simulation task is cancelled a second
+             time while that clean-up is in progress.
+ clock step  in 25 % of the histories the system clock is stepped (+-1 s ... 1 h, seams.jump_wall)
+             before one of the events or before the stop (fault clock_jump_fwd/back).
  interlock   a timed FSM (generated / Timer / InputExp) may have an on_output event (filtered
              to the first output, previous == UNDEF) to a relay block that synchronously sends
              an event back, unless the FSM is inside event() (normal initialisation): during
@@ -35,10 +40,17 @@ Oracle (models/persist_model.py, written from the documentation):
              after a failing handler: no further write of that block; start-up failed (a start()
              call failed, or the simulation was terminated before the initialisation of any
              sequential block began): no write at all and no entry of a block deleted; regular stop: every persistent block saved with the state it had immediately
-             before the stop, and a float 'edzed-stop-time' (== wall clock) is written (no order
+             before the stop, and a float 'edzed-stop-time' == the wall time at which the stop
+             sequence saved the states (1 ms tolerance; not the time the clean-up ended) is written
+             even when the clean-up is interrupted by a second cancellation (no order
              between them is demanded; a timer event handled during the asynchronous clean-up may
              save its block once more afterwards); every value ever written equals a state the
-             block really had at an event boundary or at the moment of the write.
+             block really had at an event boundary or at the moment of the write; at EVERY save
+             of an FSM the saved expiry equals the absolute time, on the wall clock as it is at
+             that moment (i.e. after a clock step), at which the block's pending loop timer will
+             fire - taken from the loop's timer handle, not from get_state() - or None without a
+             pending timer; entries saved before a clock step are compared in the clock of their
+             save.
  restarts    per block the model's verdict for snapshot k: restored state (same FSM state, sdata
              and the same absolute timer deadline) and the corresponding output, no entry action
              and no on_enter event during the start; the timer then fires at the stored absolute
@@ -105,6 +117,9 @@ MUTANTS (quick tier, VERIF_REPO=<scratch copy with the candidate repair + one mu
   seeded changes (tools/seeded.py, quick tier): C06-s1 (start_ok set before the first
   sleep(0)) start-failed/written; C06-s2 write-after-failed-handler; C06-s3 (restored timer
   started after set_output) restore/timer-handles, restore/interlock/timer, /stale-timer.
+  C06-s7 (stop timestamp written after the asynchronous clean-up) stop/timestamp-wrong,
+  stop/no-timestamp; C06-s9 (cached loop/Unix time difference) storage-differs/timer-expiry;
+  C06-s4/s5/s6/s8 detected as well.
   A first candidate repair of the defect above (get_state() treating a handle that is no longer
   scheduled as "no timer") was itself refuted by this check: storage-differs/before-stop and
   stop/saved-state-differs when the stop falls into the same instant as the expiration.
@@ -152,7 +167,8 @@ REACH_EXPECTED = ['restored', 'restored_with_timer', 'restored_timer_fired', 'ti
                   'write_error_fired', 'read_error_fired', 'garbage_injected',
                   'first_run_restored', 'block_removed_in_restart', 'timed_event_rejected',
                   'terminated_before_init', 'interlock_transition_at_restore',
-                  'interlock_event_rejected']
+                  'interlock_event_rejected', 'second_termination_in_cleanup',
+                  'slow_cleanup', 'timed_state_saved_after_clock_jump']
 ASSUMPTIONS = [
     "expiration is measured as documented ('since the program stop'): against the 'edzed-stop-time' "
     "entry present in the restarted storage; a crash snapshot carries the stop time of the previous "
@@ -161,6 +177,8 @@ ASSUMPTIONS = [
     "'start-up failed' = a start() call failed, or the simulation ended before the initialisation "
     "of any sequential block began (all init_steps_completed == 0); for a failed initialisation "
     "and under storage faults only 'absent or a state the block really had' is demanded",
+    "'edzed-stop-time' must equal the wall time of the stop sequence's state saves within 1 ms "
+    "(clock read costs); a clock step is applied between two loop callbacks, never inside one",
     "the interlock relay decides 'the FSM is being restored' by the harness' own event depth "
     "counter (the FSM is not inside event()); its event is always one of the FSM's own events",
     "timestamps are compared with 50 us tolerance; a restore decision (timer ran out / state "
@@ -486,6 +504,20 @@ def gen(rng, tier, index=0):
         op.update({'t': t, 'blk': b['name'], 'boom': boom})
         ops.append(op)
     stop_at = round(t + rng.choice([0.0, 0.001, 0.3, 1.0]), 6)
+    second_term = None
+    if scenario in ('stop', 'handler_fail') and rng.random() < 0.3:
+        # a bystander with a slow asynchronous clean-up; sometimes the simulation task is
+        # cancelled a second time while that clean-up is in progress
+        dur = rng.choice([0.1, 0.3, 1.0, 2.0])
+        blocks.insert(rng.randrange(len(blocks) + 1), {'kind': 'slowstop', 'name': 'slow', 'dur': dur})
+        if rng.random() < 0.4:
+            second_term = round(dur * rng.choice([0.0, 0.3, 0.7]), 6)
+    jump = None
+    if rng.random() < 0.25:
+        # the system clock is stepped while the circuit runs (NTP, manual setting, VM resume)
+        jump = {'at_op': rng.choice(['stop'] + list(range(len(ops)))),
+                'delta_s': rng.choice([1.0, 2.5, 30.0, 600.0, 3600.0])
+                * rng.choice([1, 1, -1])}
     abort = None
     if scenario == 'start_fail':
         blocks.insert(rng.randrange(len(blocks) + 1), {'kind': 'badstart', 'name': 'bad'})
@@ -562,7 +594,8 @@ def gen(rng, tier, index=0):
         for k in (knobs, knobs2):
             k['cost_ns'] = min(k['cost_ns'], 20_000)
     return {'knobs': knobs, 'knobs2': knobs2, 'start_wall_us': start_wall, 'tz_s': tz_s,
-            'scenario': scenario, 'abort': abort, 'blocks': blocks, 'ops': ops, 'stop_at': stop_at,
+            'scenario': scenario, 'abort': abort, 'jump': jump, 'second_term': second_term,
+            'blocks': blocks, 'ops': ops, 'stop_at': stop_at,
             'initial': initial, 'second': second, 'downtimes': downtimes, 'fault': fault}
 
 
@@ -594,6 +627,15 @@ class BadTask(edzed.AddonMainTask, edzed.SBlock):
 
     def init_regular(self):
         self.set_output(0)
+
+
+class SlowStop(edzed.AddonAsync, edzed.SBlock):
+    """Bystander whose asynchronous clean-up takes noticeable (virtual) time."""
+    def init_regular(self):
+        self.set_output(0)
+
+    async def stop_async(self):
+        await asyncio.sleep(self.x_dur)
 
 
 class Relay(edzed.SBlock):
@@ -652,6 +694,9 @@ class Sim:
         self.stop_ref = {}          # key -> state at the last event boundary before the stop save
         self.event_writes = set()   # journal indices of saves made by events
         self.kicked = {}            # name -> number of interlock events sent back to the FSM
+        self.offset0 = seams.S.wall_offset_ns    # wall clock offset when this life began
+        self.write_offset = {}      # key -> wall clock offset at its last write
+        self.unjudged_key = None    # garbage entry
         self.last_state = {}
         self.enters = {}            # name -> [[state, during_init]]
         self.onenter = {}           # name -> [during_init]
@@ -704,6 +749,8 @@ class Sim:
             return AbortStart(name)
         if kind == 'badtask':
             return BadTask(name)
+        if kind == 'slowstop':
+            return SlowStop(name, x_dur=float(b['dur']), stop_timeout=float(b['dur']) + 5.0)
         pk = {'persistent': b['persistent'], 'sync_state': b['sync_state'],
               'expiration': b['expiration']}
         if b.get('kick') and pm.is_fsm(kind):
@@ -833,10 +880,41 @@ class Sim:
             # reference for the stop save: the state at the last event boundary before it
             self.stop_ref[key] = self.last_state.get(name)
 
+    def timer_deadline(self, name):
+        """Absolute (wall clock, now) expiration of the block's pending timer handle or None."""
+        blk = self.blocks[name]
+        loop = self.loop
+        ready = [h for h in loop._ready if hasattr(h, '_when') and not h._cancelled]
+        for h in loop.live_timers() + ready:
+            cb = h._callback
+            if getattr(cb, '_sim_blk', None) is blk or getattr(cb, '__self__', None) is blk:
+                return h._when + seams.S.wall_offset_ns / 1e9
+        return None
+
     def on_written(self, key):
         name = self.bykey.get(key)
-        if name is not None and self.depth.get(name):
+        if name is None:
+            return
+        if self.depth.get(name):
             self.event_writes.add(len(self.storage.journal) - 1)    # saved by an event
+        self.write_offset[key] = seams.S.wall_offset_ns
+        b = self.specs[name]
+        if pm.is_fsm(b['kind']) and key != self.unjudged_key:
+            # the saved expiry must be the absolute time (on the wall clock as it is NOW) at
+            # which the pending timer of the loop will fire: now + remaining monotonic time
+            parts = pm.split_fsm_state(self.storage._data.get(key))
+            if parts is not None:
+                true_ts = self.timer_deadline(name)
+                saved = parts[1]
+                if saved is not None and seams.S.wall_offset_ns != self.offset0:
+                    self.R.fired('reach:timed_state_saved_after_clock_jump')
+                if (saved is None) != (true_ts is None) or (
+                        saved is not None
+                        and abs(saved - true_ts) > max(pm.TS_TOL, 1e-14 * abs(saved))):
+                    self.violate('C06/storage-differs/timer-expiry',
+                                 f"{name}: saved {canon(self.storage._data.get(key))}; the block's "
+                                 f"pending timer expires at {canon(true_ts)} on the present wall "
+                                 f"clock ({seams.wall_now():.6f})")
 
     def ack_all(self):
         for name in self.real_names():
@@ -860,10 +938,23 @@ class Sim:
                 return
             self.violate(f"C06/storage-differs/{where}/missing",
                          f"{name}: the storage has no entry, the block's state is {canon(cur)}")
-        elif not pm.state_eq(b['kind'], data[key], cur):
+        elif not pm.state_eq(b['kind'], data[key], self.in_clock_of_write(b, key, cur)):
             self.violate(f"C06/storage-differs/{where}",
                          f"{name} ({b['kind']}): the storage holds {canon(data[key])}, the block's "
                          f"internal state is {canon(cur)}")
+
+    def in_clock_of_write(self, b, key, cur):
+        """
+        A timer expiry saved before a step of the system clock is expressed in the clock of
+        that time (it cannot be otherwise until the next save): translate the present state.
+        """
+        shift = seams.S.wall_offset_ns - self.write_offset.get(key, self.offset0)
+        if not shift or not pm.is_fsm(b['kind']):
+            return cur
+        parts = pm.split_fsm_state(cur)
+        if parts is None or parts[1] is None:
+            return cur
+        return (parts[0], parts[1] - shift / 1e9, parts[2])
 
     def check_all(self, where):
         for name in self.real_names():
@@ -997,10 +1088,12 @@ class Sim:
             return
         # the stop sequence: the first write of each block after the simulation ended
         stop_sets = {}
+        saved_at = []
         for i, (op, key, value, stamp) in enumerate(journal):
             if (op == 'set' and stamp[1] == 'stop' and key in bykey and key not in stop_sets
                     and i not in self.event_writes):
                 stop_sets[key] = value
+                saved_at.append(stamp[2])
         for name in self.real_names():
             b = self.specs[name]
             key = self.keys[name]
@@ -1026,10 +1119,13 @@ class Sim:
             return
         last = stamps[-1]
         ts = last[2]
-        want = wall_of(last[3][0])
+        # "together with a stop timestamp": the time at which the stop sequence saved the states
+        # (expiration is measured from it); without any saved state: the time of its own write
+        want = (max(saved_at) if saved_at else last[3][2]) / 1e6
         if not isinstance(ts, float) or abs(ts - want) > 1e-3:
             self.violate('C06/stop/timestamp-wrong',
-                         f"'edzed-stop-time' is {canon(ts)}, the wall clock was {want:.6f}")
+                         f"'edzed-stop-time' is {canon(ts)}, the stop sequence saved the states "
+                         f"at {want:.6f} (timestamp written at {last[3][2] / 1e6:.6f})")
 
     # ---- judging a start against the storage it started from
     def local_us(self, b):
@@ -1312,7 +1408,7 @@ def restart(R, plan, k, snap, wall_us, stats, fired_names=()):
             snap2.setdefault(key, value)
         storage = ObsStorage(initial=snap2)
         sim = Sim(R, run2, plan, f"k{k}", specs, storage, verbose=False)
-        storage._clock = lambda: [loop._ns, sim.phase()]
+        storage._clock = lambda: [loop._ns, sim.phase(), seams.wall_us()]
         storage.observer = sim.on_write
         storage.written = sim.on_written
         sim.build()
@@ -1320,6 +1416,7 @@ def restart(R, plan, k, snap, wall_us, stats, fired_names=()):
         garbage_key = read_key = None
         if fault.get('kind') == 'garbage' and fault['blk'] in sim.keys:
             garbage_key = sim.keys[fault['blk']]
+            sim.unjudged_key = garbage_key
             storage._data[garbage_key] = copy.deepcopy(fault['value'])
             storage._initial[garbage_key] = copy.deepcopy(fault['value'])
             snap2[garbage_key] = copy.deepcopy(fault['value'])
@@ -1497,7 +1594,7 @@ def execute(plan, trace=False):
         storage = ObsStorage(initial=init_data)
         relaxed = set()
         sim = Sim(run, run, plan, 'run1', blocks, storage)
-        storage._clock = lambda: [loop._ns, sim.phase()]
+        storage._clock = lambda: [loop._ns, sim.phase(), seams.wall_us()]
         storage.observer = sim.on_write
         storage.written = sim.on_written
         sim.build()
@@ -1517,13 +1614,32 @@ def execute(plan, trace=False):
                 storage.fail_writes[wkey] = fault['n']
         info = {'started': False, 'regular': False, 'first_outcomes': ''}
 
-        def wall_of(ns):
-            return ((ns + off1) // 1000) / 1e6
+        jump = plan.get('jump') or {}
+
+        def wall_of(stamp):
+            return stamp[2] / 1e6
+
+        def clock_jump():
+            delta = float(jump['delta_s'])
+            seams.jump_wall(delta)
+            run.fired('fault:clock_jump_fwd' if delta > 0 else 'fault:clock_jump_back')
+            run.log('clock-jump', delta)
+            sim.beh.append(['jump', delta > 0])
+            sim.ack_all()       # the same states, expressed in the new clock
 
         def do_op(i, op):
             if wkey is not None and fault['at_op'] == i:
                 storage.fail_writes[wkey] = fault['n']
+            if jump and jump['at_op'] == i and circuit.is_ready():
+                clock_jump()
             sim.send(op)
+
+        def second_termination(simtask):
+            if not simtask.done():
+                run.fired('fault:second_terminate')
+                run.fired('reach:second_termination_in_cleanup')
+                run.log('second-termination')
+                simtask.cancel()
 
         abort = plan.get('abort') or {}
 
@@ -1580,10 +1696,15 @@ def execute(plan, trace=False):
             fut = loop.create_future()
             run.at(float(plan['stop_at']), fut.set_result, None)
             await fut
+            if jump and jump['at_op'] == 'stop' and circuit.is_ready():
+                clock_jump()
             if circuit.is_ready():
                 sim.ack_all()
                 sim.check_all('before-stop')
                 info['regular'] = True
+                if plan.get('second_term') is not None:
+                    loop.call_exact(loop.time() + float(plan['second_term']) + 1e-4,
+                                    second_termination, simtask)
             if wkey is not None and fault['at_op'] == 'stop':
                 storage.fail_writes[wkey] = fault['n']
             try:
@@ -1601,6 +1722,8 @@ def execute(plan, trace=False):
             run.harness_error = run.harness_error or \
                 f"first run: {type(run.main_exc).__name__}: {run.main_exc}"
         journal = storage.journal
+        if info['regular'] and any(b['kind'] == 'slowstop' for b in blocks):
+            run.fired('reach:slow_cleanup')
         if storage.write_errors:
             run.fired('reach:write_error_fired')
             run.fired('fault:storage_write_error', storage.write_errors)
@@ -1627,8 +1750,8 @@ def execute(plan, trace=False):
                 if k:
                     e = journal[k - 1]
                     if e[0] == 'set':
-                        last_set_wall[e[1]] = wall_of(e[3][0])
-                wall_crash_us = (t_ns + off1) // 1000
+                        last_set_wall[e[1]] = wall_of(e[3])
+                wall_crash_us = journal[k - 1][3][2] if k else plan['start_wall_us']
                 d_us = downtime_us(downtimes[k % len(downtimes)], snap, blocks, sim.keys,
                                    wall_crash_us / 1e6)
                 if info['regular'] and stop_idx:
